@@ -1,4 +1,4 @@
-(* trusted glue: reads one (class table, history) per line, runs the extracted impl-model and the
+(* trusted glue: reads one (class table, history) per line, runs the extracted impl-model (repaired and pre-fix) and the
    extracted specification, prints one JSON object per line.
 
    line     := classes '#' history
@@ -86,6 +86,7 @@ let op s =
   | ["pass"; p; f; d] -> PassAndMutate (path p, var f, lit d)
   | ["retsame"; d; p] -> ReturnSame (var d, path p)
   | ["is"; a; b] -> IsTest (path a, path b)
+  | ["viamap"; d; p] -> ThroughMap (var d, path p)
   | _ -> failwith ("op " ^ s)
 
 let rec oval = function
@@ -105,7 +106,7 @@ let () =
       let (cs, hs) = split1 '#' line in
       let ct = List.map cls (words '|' cs) in
       let h = List.map op (List.filter (fun t -> String.trim t <> "") (String.split_on_char ';' hs)) in
-      Printf.printf "{\"model\":%s,\"spec\":%s}\n" (result (run ct h)) (result (spec_run ct h))
+      Printf.printf "{\"model\":%s,\"legacy\":%s,\"spec\":%s}\n" (result (run false ct h)) (result (run true ct h)) (result (spec_run ct h))
     with Failure m -> Printf.printf "{\"error\":\"%s\"}\n" (String.escaped m)
        | Invalid_argument m -> Printf.printf "{\"error\":\"%s\"}\n" (String.escaped m))
   done with End_of_file -> ()
